@@ -52,6 +52,63 @@ theorem old_protocol_broken_text_not_stored :
 example : Valid [⟨0, .update 1 true⟩, ⟨1, .update 2 true⟩, ⟨0, .close⟩, ⟨1, .update 4 false⟩]
     [.recv 0, .recv 1, .store 1, .recv 2, .recv 3, .store 3, .store 0, .store 2] := by decide
 
+/-! ### Saves.  The server has no `didSave` handler: a save is not part of the history and changes nothing.  A handler
+that re-analyses the *stored* text under a fresh ticket (seed C18-6) and a per-document ticket counter that restarts
+after a close (seed C18-5) both break convergence; the witnesses below are kernel-checked. -/
+
+inductive NoteS where
+  | update (p : Nat)
+  | save
+  deriving DecidableEq, Repr
+
+structure StS where
+  latest : Option Nat := none
+  doc : Option Nat := none
+  read : Nat → Option Nat := fun _ => none
+
+/-- One document; a save handler reads the stored payload when it starts, takes a ticket, and stores what it read. -/
+def execSave (h : List NoteS) (s : StS) : Step → StS
+  | .recv i =>
+    match h[i]? with
+    | some (.update _) => { s with latest := some i }
+    | some .save => { s with latest := some i, read := upd s.read i s.doc }
+    | none => s
+  | .store i =>
+    match h[i]? with
+    | some (.update p) => if s.latest = some i then { s with doc := some p } else s
+    | some .save => if s.latest = some i then { s with doc := s.read i } else s
+    | none => s
+
+theorem save_with_ticket_loses_newer_version :
+    (([Step.recv 0, .store 0, .recv 1, .recv 2, .store 1, .store 2] : List Step).foldl
+      (execSave [.update 1, .update 2, .save]) {}).doc = some 1 := by
+  decide
+
+/-- Tickets numbered per document from 0 again after a close: the analysis of the first open (ticket 0, still in
+flight) passes the guard of the re-opened document (ticket 0 again) and overwrites its text. -/
+def execPerDoc (tickets : List Nat) (h : List Note) (s : St) : Step → St
+  | .recv i =>
+    match h[i]?, tickets[i]? with
+    | some n, some t =>
+      (match n.kind with
+      | .update _ _ => { s with latest := upd s.latest n.uri (some t) }
+      | .close => { s with latest := upd s.latest n.uri none })
+    | _, _ => s
+  | .store i =>
+    match h[i]?, tickets[i]? with
+    | some n, some t =>
+      (match n.kind with
+      | .update p _ => if s.latest n.uri = some t then { s with docs := upd s.docs n.uri (some p) } else s
+      | .close => if s.latest n.uri = none then { s with docs := upd s.docs n.uri none } else s)
+    | _, _ => s
+
+theorem per_document_tickets_resurrect_old_text :
+    let h : List Note := [⟨0, .update 1 true⟩, ⟨0, .close⟩, ⟨0, .update 3 false⟩]
+    let sched : List Step := [.recv 0, .recv 1, .store 1, .recv 2, .store 2, .store 0]
+    Valid h sched ∧ (sched.foldl (execPerDoc [0, 0, 0] h) St.init).docs 0 = some 1 ∧ expected h 0 = some 3
+      ∧ (runNew h sched).docs 0 = some 3 := by
+  decide
+
 /-- Dependencies: an importer is analysed against the latest text of an open dependency; the file on disk only
 matters while the dependency is closed.  Two configurations with the same editor text give the same analysis,
 whatever `analyse` is. -/
